@@ -3,7 +3,7 @@
 # record verified.json, print one line per seed.  Seeds whose check is not reported are listed at the end.
 cd "$(dirname "$0")/.."
 J=${1:-5}
-ls -d seeded/*/ | sed 's|/$||' | xargs -P "$J" -I{} sh -c 'python3 tools/seedcheck.py {} --record 2>/dev/null | python3 -c "
+ls -d seeded/*/ | sed 's|/$||' | while read d; do grep -q '"obsolete"' $d/meta.json || echo $d; done | xargs -P "$J" -I{} sh -c 'python3 tools/seedcheck.py {} --record 2>/dev/null | python3 -c "
 import json,sys
 try:
     r=json.load(sys.stdin)
